@@ -221,7 +221,8 @@ Definition step_auth (cfg : config) (chan : bool) (p : persist) (f : features) (
    handshake + certificate/host-name verification if STARTTLS gets that far. *)
 Definition connect (cfg : config) (dial_ok tls_ok : bool) (p0 : persist) (s : list sitem)
   : list out * result * persist :=
-  if negb dial_ok then ([], Err true true, p0) else
+  (* a refused or timed-out TCP connection is a transient ConnError *)
+  if negb dial_ok then ([], Err true false, p0) else
   (* XMPPTransport.Connect: new TCP connection, isSecure reset *)
   let p := set_flags p0 false (p_tls_enabled p0) in
   let w0 := [o false ROpen] in
